@@ -8,6 +8,13 @@ T = {
  'C01': dict(design='4/C01', technique='property-based differential testing against an exact rational sparse-tableau solver + bounded-exhaustive small topologies',
              text='Generated-input search: random networks (all element kinds, labels, references) and complete enumeration of small oriented multigraphs; every reported potential/voltage/current/power is compared with an exact Q(i) tableau solution and re-validated against KCL and the element laws. Exploration, not proof: holds on the cases generated.',
              note='Trusts the 150-line exact tableau solver (shares no code with the library), the reference directions of DESIGN 0.1 and numpy for the conditioning guard (cases with condition > 1e8 are not judged).'),
+
+ 'C08': dict(design='4/C08', technique='property-based testing against the true Fourier coefficients of the waveform time functions (DFT / numerically located break points + closed-form piecewise-linear integrals), Bessel-Parseval bound',
+             text='Generated (waveform, amplitude, phase, offset, period, order) tuples; each harmonic amplitude/phase and the a/b/c forms are compared with the coefficient obtained from the waveform\'s own time function by an independent integration; partial energy sums are bracketed by Bessel/Parseval. Exploration over generated inputs.',
+             note='Trusts numpy FFT-free direct DFT sums and the break-point locator (verified per case by linearity probes); tolerance 1e-7 of the amplitude.'),
+ 'C18': dict(design='4/C18', technique='bounded-exhaustive decimal grid + property-based random floats against a strict text parser with exact decimal arithmetic',
+             text='Every p<=3 (thorough p<=4) digit mantissa x decade x float neighbours x sign x prefix table is rendered and parsed back; random binary64 values, complex values in all quadrants (Cartesian/polar) and every Display.print_* helper likewise. Accuracy is judged in exact Decimal arithmetic. The enumerated grid is complete; the rest is exploration.',
+             note='Trusts the strict parser in vlib/parse_display.py and Python Decimal; ties within 1e-9 of half a unit are accepted either way; infinity is accepted from 10^(max_exp+1) of the table in force; open finding F20 (precision-dependent suppression of complex parts) is reported as KNOWN-FINDING.'),
 }
 
 DEFAULT_LEVEL = 'exploration'
